@@ -158,18 +158,19 @@ def run(ctx):
         if not rq or not N.wellformed(rq, roles):
             continue
         for u in (False, True):
-            a = N.real_acse_mode(rq, ac, roles, u)
+            via = k % 2 == 1  # the supported contexts are set by an EVT_USER_ID handler during negotiation
+            a = N.real_acse_mode(rq, ac, roles, u, via_handler=via)
             b = N.real_acceptor(rq, ac, roles, u)
             case = N.fmt_case(rq, ac, roles, u)
-            ctx.case(["acse-mode", case], kind=f"acse-mode:{'unr' if u else 'acc'}")
+            ctx.case(["acse-mode", case, via], kind=f"acse-mode:{'unr' if u else 'acc'}" + (":contexts-set-by-handler" if via else ""))
             if a[0] == "ok" and b[0] == "ok":
                 a, b = ["ok", sorted(a[1]), a[2]], ["ok", sorted(b[1]), b[2]]
             if a != b:
                 ctx.fail(
                     "acse:wrong-negotiation-mode",
-                    f"ACSE._negotiate_as_acceptor with UNRESTRICTED_STORAGE_SERVICE={u} holds {a}, "
+                    f"ACSE._negotiate_as_acceptor with UNRESTRICTED_STORAGE_SERVICE={u}{' (supported contexts set by the EVT_USER_ID handler)' if via else ''} holds {a}, "
                     f"{'negotiate_unrestricted' if u else 'negotiate_as_acceptor'} returns {b}",
-                    ["acse-mode", case],
+                    ["acse-mode", case, via],
                 )
 
 
@@ -203,9 +204,10 @@ def replay(ctx, case):
         print("treated as storage by negotiate_unrestricted:", c["unrestricted_single_context"])
         return 1
     if isinstance(c, list) and c and c[0] == "acse-mode":
+        via = bool(c[2]) if len(c) > 2 else False
         c = c[1]
         rq, ac, roles, u = [tuple(x) for x in c["rq"]], [tuple(x) for x in c["ac"]], [tuple(x) for x in c["roles"]], c["unrestricted"]
-        a, b = N.real_acse_mode(rq, ac, roles, u), N.real_acceptor(rq, ac, roles, u)
+        a, b = N.real_acse_mode(rq, ac, roles, u, via_handler=via), N.real_acceptor(rq, ac, roles, u)
         if a[0] == "ok" and b[0] == "ok":
             a, b = ["ok", sorted(a[1]), a[2]], ["ok", sorted(b[1]), b[2]]
         print(f"UNRESTRICTED_STORAGE_SERVICE={u}")
